@@ -377,6 +377,18 @@ class AssignmentExpression(BinaryExpression):
         super().__init__(operation, left, right)
 
     def ResolveType(self, left, right):
+        from nsl import Errors
+
+        # A swizzle write replaces exactly the selected components, so the
+        # assigned value must provide that many
+        target = self.GetLeft()
+        if (
+            isinstance(target, MemberAccessExpression)
+            and target.isSwizzle
+            and not types.IsCompatible(left, right)
+        ):
+            Errors.ERROR_INCOMPATIBLE_TYPES.Raise(left, right)
+
         self._operator = types.ExpressionType(
             self.GetLeft().GetType(),
             [self.GetLeft().GetType(), self.GetRight().GetType()],
